@@ -439,6 +439,10 @@ theorem conjure_inv {σ : Type} (ops : FsOps σ) (myUid myGid : Nat) (filt : Unp
     · simp only [hc, if_true]
       exact conjure_inv ops myUid myGid filt ps st hi hps'
     · simp only [hc, Bool.false_eq_true, if_false]
+      by_cases hfile : st.pre.has { defaultDirMeta p with kind := .file } = true
+      · simp only [hfile, if_true]
+        exact ⟨fun w h => (by cases h), fun st' h => (by cases h)⟩
+      simp only [hfile, Bool.false_eq_true, if_false]
       have hpn : p ∉ st.dirs := by simpa using hc
       obtain ⟨hn, hk, hsame⟩ := conjFiltered_props myUid myGid filt p
       generalize conjFiltered myUid myGid filt (defaultDirMeta p) = conj' at hn hk hsame ⊢
@@ -569,6 +573,10 @@ theorem entry_inv {σ : Type} (ops : FsOps σ) (myUid myGid : Nat) (filt : Unpac
       · simp only [hdup, ne_eq, not_false_eq_true, and_self, if_true]
         exact ⟨fun w e => (by cases e), fun st' e => (by cases e)⟩
       · rw [if_neg hdup]
+        by_cases htwin : st.pre.has (twinOf fmeta) = true
+        · simp only [htwin, if_true]
+          exact ⟨fun w e => (by cases e), fun st' e => (by cases e)⟩
+        simp only [htwin, Bool.false_eq_true, if_false]
         obtain ⟨cp1, cp2⟩ := conjure_inv ops myUid myGid filt fmeta.name.splitParent st hi (splitParent_good _ hgood)
         cases hcj : conjureParents ops myUid myGid filt fmeta.name.splitParent st with
         | panic w => exact absurd hcj (cp1 w)
